@@ -70,7 +70,12 @@ Translation rules (everything else is refused: 'unsupported', never guessed)
   * A call of a function of cat.c that is NOT in the mapping table (e.g. a helper introduced by
     a refactoring) is not guessed either: the callee is translated on the fly by the same rules,
     as g_aux_<name>, and called; it then belongs to the GENERATED side of the tie (class
-    AuxRegistry).  If it cannot be translated the caller is 'unsupported'.
+    AuxRegistry).  If it cannot be translated the caller is 'unsupported'.  Its parameters are of the
+    mapped scalar types (enums, size_t, bool, int, uint8_t, command pointers, `const char *` strings);
+    a parameter that is ONLY stored into fields of self of one kind takes that kind (`int ws` stored
+    into self->write_state: a wstate; `const char *b` stored into self->write_buf: a Defs.wbuf, and
+    the argument at the call must be one of the listed pointer stores).  An auxiliary function
+    that contains a loop is refused (its tie would need a loop lemma the template cannot state).
   * uint8_t arithmetic (get_cmd_state / set_cmd_state).  A uint8_t value is N (kind lane), the
     `int` it is promoted to is Z (kind mint) with the mathematical Z.shiftl Z.shiftr Z.land Z.lor
     Z.lxor Z.lnot + -; the translator carries an INTERVAL for every such value and refuses a shift
@@ -92,7 +97,24 @@ Translation rules (everything else is refused: 'unsupported', never guessed)
     g_f_afterK (the statements after the loop), `return` answers.  (2) a countdown
     `while ((n > 0) && C) { .. --n; .. }`: a Fixpoint on n.  The tie of a loop needs a lemma
     generalised over the carried variables; it is stated by hand in HandlerTie.v.in and proved by
-    the generic tactics HandlerTieLib.tie_loop / tie_wloop (induction).
+    the generic tactics HandlerTieLib.tie_loop / tie_wloop (induction).  The statement of that
+    lemma depends on what the recursion carries, so HandlerTie.v.in states it per VARIANT
+    (`loop=<kinds of the carried locals>`, reported by the translator; marker
+    `(*@ BEGIN f THEOREM loop=bool @*)`): the flag + break shape `ok = false; for (..) { if (c)
+    { ok = true; break; } } return ok;` carries the flag, the early-return shape `for (..) { if (c)
+    return true; } return false;` carries nothing; both are accepted and proved by the same
+    tactic.  A loop in a shape for which the template has no block is first evaluated on the
+    test family (the witness search does not depend on the shape): a difference is reported as
+    a failed tie with its witness, otherwise the function is reported as unsupported.
+  * Behaviour-preserving spellings that are followed (each is translated by its C meaning; the
+    proof is by case analysis, so no syntactic form is privileged): `const`-qualified self /
+    struct pointers (a NoOp conversion of `self` at a call); a pointer or a bool as a truth value
+    (`p` is `p != NULL`, `!x` is `x == false`); `return a == b;`; `A || B` / `A && B` in which a
+    helper that may modify *self is called: C's left-to-right evaluation is made explicit
+    (`if (A || B) T else E` is `if (A) T else if (B) T else E` with T bound once: split_if); a
+    size_t subtraction in the RIGHT operand of && / || is guarded only when that operand is
+    evaluated; a local `struct cat_unsolicited_fsm *x = &self->unsolicited_fsm` that is only used
+    as x->F; a local command pointer written through `&x` by pop_unsolicited_cmd.
   * OUT-parameters (`T *p`, only written; OUT_PARAM_KINDS): the function answers
     (state, status, option T ..): Some v if it wrote *p.  At a call (OUT_HELPERS) `&local` makes
     the local an OPTION (reading it when the callee did not write it is a fault), `&self->f`
@@ -140,7 +162,11 @@ Translation rules (everything else is refused: 'unsupported', never guessed)
     GENERATED getters: command region inside buf, event region disjoint from it and inside buf
     (shared) or inside unsolicited_buf (separate).
   * cat_init: see INIT_FUNCTION in section 1.
-  * The public functions that take the mutex: see API_FUNCTIONS in section 1.
+  * The public functions that take the mutex: see API_FUNCTIONS in section 1.  The two tests of the
+    mutex are recognised by EVALUATING their condition in every case of the environment (mutex_test /
+    _MutexSim), so `if (!lock_mutex(self)) return E;` with a helper `return (self->mutex == NULL) ||
+    (self->mutex->lock() == 0);` is the same test as the spelled-out one; a test that reaches the
+    mutex interface but behaves otherwise is described in the reason of the refusal.
   * Besides whole functions, three PARTS of functions are tied (see the tables of section 1):
       - POST_CALL_FUNCTIONS: the switch over the code returned by a command handler, as a function
         of that code (g_<f>_post D code s);
@@ -657,6 +683,13 @@ HANDLER_CALL_FIELDS = {"write": "HC_write", "run": "HC_run", "read": "HC_read", 
 #        f(self[, FSM]); break;                                  DCallOnly (H_f [FSM])   (s unchanged)
 #        s = CAT_STATUS_ERROR_UNKNOWN_STATE; break;              DUnknown
 #        break;                                                  DNothing
+#      and, since the arms are EVALUATED (which handlers are called, which status the function
+#      returns: translate_dispatch.run), the same entries written with `return`:
+#        return f(self[, FSM]);                                  DAssign
+#        f(self[, FSM]); break;  .. return CAT_STATUS_BUSY; after the switch      DBusy
+#        if (is_unsolicited_buffer_empty(self)) return CAT_STATUS_OK; f(self); break; ..        DIfEvents
+#      "s unchanged" means the status the model takes for it (DISPATCH_S0): when an entry depends
+#      on it the status variable must be initialised with that enumerator.
 # the status that stands for "no arm assigned it" in the model's reading of the table (HandlerTie.v.in,
 # run_dispatch s0): cat_service declares its status variable without initialiser and every arm assigns it
 # (an arm that does not would be DNothing / DCallOnly, which the expected table does not contain);
@@ -1032,6 +1065,7 @@ class FunctionTranslator:
         self.oracle_sites = 0            # oracle call sites translated so far
         self.ptr_origin = {}             # Coq name of a pointer local -> (helper it came from, fsm term)
         self.getter = None               # GETTER_FUNCTIONS entry: (kind of the result, reads the descriptor)
+        self.result_pointer_ids = set()  # ids of the command-pointer locals that are only assigned / returned
         self.uns_alias_ids = set()       # clang ids of the locals that are only ever &self->unsolicited_fsm
         self.outarg_locals = {}          # clang id of a local passed as &x to an OUT_HELPERS callee -> kind
         self.loop_sig = None             # 'loop=<kinds of the carried locals>' / 'wloop=..': selects the
@@ -1076,6 +1110,8 @@ class FunctionTranslator:
             if kind == "wstate" and n in WSTATE_BY_VALUE and self.defines_ok["wstate"]:
                 return Ex("wstate", WSTATE_BY_VALUE[n])
             refuse(node, "integer literal %d used where a %s is expected" % (n, kind))
+        if ex.kind == "null" and kind == "cmdrecopt":  # NULL as a pointer to a command descriptor
+            return Ex("cmdrecopt", "(@None cmd)")
         if ex.kind == "cmdidx" and kind == "cmdptr":  # a non-NULL command pointer
             return Ex("cmdptr", "Some %s" % par(ex.term))
         if ex.kind == "cstr" and kind == "str":       # the name of a command, printed
@@ -2742,6 +2778,9 @@ class StatementTranslator(FunctionTranslator):
         q = q.replace("const struct", "struct")
         if d.get("id") in self.outarg_locals and q in ("struct cat_command *", "struct cat_command const *"):
             return self.outarg_locals[d["id"]]     # a command pointer that a callee writes through &x
+        if q in ("struct cat_command *", "struct cat_command const *") and self.ret_kind == "cmdrecopt" \
+                and d.get("id") in self.result_pointer_ids:
+            return "cmdrecopt"                     # the descriptor the function will return (or NULL)
         m = re.fullmatch(r"char\[(\d+)\]", q)
         if m:                               # a local string buffer, only filled by strcpy(.., "LIT")
             self.array_size[d.get("id")] = int(m.group(1))
@@ -3836,6 +3875,18 @@ def translate_function(fn, decls, defines_ok, defined_in_tu=frozenset(), aux=Non
                     param_kinds.append(k)
         tr.written_locals = local_writes(items)
         tr.uns_alias_ids = uns_aliases(tr, body)
+        # command-pointer locals that are never dereferenced (`r = NULL; .. r = &g->cmd[e]; .. return r;`)
+        deref = set()
+        for c in walk(body):
+            if c.get("kind") in ("MemberExpr", "ArraySubscriptExpr") and (c.get("isArrow") or c["kind"] != "MemberExpr"):
+                b = strip_casts(c["inner"][0])
+                if b.get("kind") == "DeclRefExpr":
+                    deref.add(b.get("referencedDecl", {}).get("id"))
+            if c.get("kind") == "UnaryOperator" and c.get("opcode") == "*":
+                b = strip_casts(c["inner"][0])
+                if b.get("kind") == "DeclRefExpr":
+                    deref.add(b.get("referencedDecl", {}).get("id"))
+        tr.result_pointer_ids = {c["id"] for c in walk(body) if c.get("kind") == "VarDecl"} - deref
         for c in walk(body):               # locals that a helper with out-parameters writes through &x
             if c.get("kind") == "CallExpr" and tr.callee_name(c) in OUT_HELPERS:
                 _, _, kinds_, outk_ = OUT_HELPERS[tr.callee_name(c)]
@@ -4813,9 +4864,11 @@ def run_handler_tie(repo_src_dir, workdir, coq_dir, template_path=None, tie_src_
         res["lines"].pop(f, None)
         res["auxiliary"].pop(f, None)
         res["unsupported"][f] = (
-            "the loop is translated (%s: the kinds of the locals it carries from one iteration to the "
-            "next) and agrees with the model on the whole test family, but %s states its loop lemma "
-            "only for: %s" % (variants.get(f), TEMPLATE_NAME, ", ".join(sorted(have))))
+            "the function is translated (%s) and agrees with the model on the whole test family, but %s "
+            "states its loop lemma only for: %s" % (
+                "its loop carries %s: the kinds of the locals that go from one iteration to the next"
+                % variants[f] if variants.get(f) else "without a loop of its own",
+                TEMPLATE_NAME, ", ".join(sorted(have))))
 
     # HandlerTie.v = the template restricted to the translated functions (kept for the reader).  It is
     # COMPILED IN PARTS, in parallel: the functions are dealt into a few files HandlerTie_partK.v
